@@ -149,9 +149,9 @@ func vh_C13_io() {
 	}
 }
 
-var vhRegistry = map[string]func(){"vh_C13_env": vh_C13_env, "vh_C13_io": vh_C13_io, "vh_C13_exit": vh_C13_exit, "vh_C13_table": vh_C13_table}
+var vhRegistry = map[string]func(){"vh_C13_env": vh_C13_env, "vh_C13_io": vh_C13_io, "vh_C13_exit": vh_C13_exit, "vh_C13_table": vh_C13_table, "vh_C13_log": vh_C13_log, "vh_C13_flag": vh_C13_flag}
 
-var vhIntVars = map[string]*int{"vhEnvOp": &vhEnvOp, "vhExitFn": &vhExitFn}
+var vhIntVars = map[string]*int{"vhEnvOp": &vhEnvOp, "vhExitFn": &vhExitFn, "vhLogFn": &vhLogFn}
 
 var vhScenarios = map[string]func(map[string]string) bool{}
 
